@@ -53,7 +53,16 @@
 //! the fix).
 //!
 //! Sensitivity probes (tools/mutrun, patches in crates/vf-list/probes/, quick tier):
-//! PROBE-VERDICTS-C27
+//! A. helpers.rs `parse_partitions_for_path` without percent-decoding (probes/c25c27-pA-…diff) → VIOLATION after
+//!    5 cases.
+//! D. helpers.rs `evaluate_partition_prefix` uses the prefix also for values its own encode set changes
+//!    (probes/c27-pD-…diff): first run stayed GREEN (453 cases) — literals met file values too rarely; the per-case
+//!    palette was added, re-probe → VIOLATION after 40 cases.
+//! E. datasource/url.rs `ListingTableUrl::contains`: `segments.count() <= 2` with ignore_subdirectory (env-guarded
+//!    in probes/combined-datasource-env-guarded.diff) — verdict in probes/log-all.txt (run still queued when this
+//!    header was written).
+//! Repair check: fixes/C27-partition-prefix-single-spelling.diff + `VERIF_C27_NO_EXCLUDE=1` → exit 0, 480 cases,
+//! the regression case passes (probes/log-c27-fix.txt).
 use crate::util::*;
 use arrow::datatypes::DataType;
 use datafusion::common::tree_node::{Transformed, TreeNode};
